@@ -228,6 +228,7 @@ pub fn run_check(id: &str, tier: &str) -> i32 {
     }
     let agg = Mutex::new(Agg { runs: 0, keys: BTreeSet::new(), findings: vec![], samples: vec![], stats: BTreeMap::new(), errors: vec![], nondet: 0, rechecked: 0 });
     let idh = id.bytes().fold(0xcbf29ce484222325u64, |h, b| (h ^ b as u64).wrapping_mul(0x00000100000001B3));
+    let digest_log: Option<Mutex<std::fs::File>> = std::env::var("VERIF_DIGEST_LOG").ok().and_then(|p| std::fs::File::create(p).ok()).map(Mutex::new);
     std::thread::scope(|s| {
         for _ in 0..workers {
             s.spawn(|| loop {
@@ -240,6 +241,10 @@ pub fn run_check(id: &str, tier: &str) -> i32 {
                 }
                 let seed_r = crate::mix(crate::mix(base_seed, idh), i);
                 let r = run_one(id, seed_r, 100);
+                if let (Some(l), Ok((res, _))) = (digest_log.as_ref(), r.as_ref()) {
+                    use std::io::Write;
+                    let _ = writeln!(l.lock().unwrap(), "{} {} {:016x}", i, seed_r, res.digest);
+                }
                 let again = if i % 50 == 7 { Some(run_one(id, seed_r, 100)) } else { None };
                 let mut a = agg.lock().unwrap();
                 a.runs += 1;
